@@ -99,7 +99,7 @@ def build(stream, p):
 
     def run():
         for t in p.get("twins", []):
-            ta = gen.acc_array(t)
+            ta = gen.acc_array(t, readonly_ok=False)
             tm = dsw.accessor_to_latter_map(ta)
             f0 = flags[0] if flags else 3
             try:
@@ -107,7 +107,7 @@ def build(stream, p):
                 dsw.remove_nasty_arc(accessor=ta, latter_map=tm, has_insertion=bool(f0 % 2), has_deletion=bool(f0 // 2))
             except Exception:  # noqa
                 pass
-        acc = gen.acc_array(rows)
+        acc = gen.acc_array(rows, readonly_ok=False)
         lm = dsw.accessor_to_latter_map(acc)
         if p.get("twins"):
             f0 = flags[0] if flags else 3
